@@ -98,6 +98,22 @@ fn get_other(q: &Qualifiers, kind: u8) -> (Option<String>, bool) {
     }
 }
 
+/// An iterator adapter that reports a chosen (legitimate) size hint: the lower bound never exceeds and
+/// the upper bound never falls below what it really yields.
+pub struct Hinted<I> {
+    pub inner: I,
+    pub hint: (usize, Option<usize>),
+}
+impl<I: Iterator> Iterator for Hinted<I> {
+    type Item = I::Item;
+    fn next(&mut self) -> Option<I::Item> {
+        self.inner.next()
+    }
+    fn size_hint(&self) -> (usize, Option<usize>) {
+        self.hint
+    }
+}
+
 pub struct QModel {
     pub name: &'static str,
     pub keys: Vec<String>,
@@ -280,6 +296,18 @@ impl Model for QModel {
             let got = Qualifiers::try_from_iter(items.iter().map(|(k, v)| (k.as_str(), v.as_str())));
             // the same pairs through an iterator whose size hint is only a lower bound of zero
             let got_inexact = Qualifiers::try_from_iter(items.iter().map(|(k, v)| (k.as_str(), v.as_str())).filter(|_| true));
+            // ... and through iterators with every other legitimate shape of size hint
+            let n_items = items.len();
+            for hint in [(0usize, None), (0, Some(usize::MAX)), (0, Some(n_items)), (n_items, None), (n_items, Some(usize::MAX)), (n_items / 2, Some(n_items + 1000))] {
+                acc.calls += 1;
+                let via = guarded(|| Qualifiers::try_from_iter(Hinted { inner: items.iter().map(|(k, v)| (k.as_str(), v.as_str())), hint }));
+                match (&via, &got) {
+                    (Ok(Ok(a)), Ok(b)) if a == b => {},
+                    (Ok(Err(_)), Err(_)) => {},
+                    (Err(m), _) => acc.violate(Violation { prop: "C06", kind: "panic".into(), case: json!({"engine": self.name, "init": label, "actions": [], "size_hint": format!("{:?}", hint)}), detail: format!("try_from_iter panics for an iterator with size hint {:?}: {m}", hint) }),
+                    _ => acc.violate(Violation { prop: "C11", kind: "try_from_iter-depends-on-size-hint".into(), case: json!({"engine": self.name, "init": label, "actions": []}), detail: format!("size hint {:?}: {:?}; array-backed iterator: {:?}", hint, via.as_ref().map(|r| r.as_ref().map(content).map_err(|e| e.to_string())), got.as_ref().map(content).map_err(|e| e.to_string())) }),
+                }
+            }
             match (&got, &got_inexact) {
                 (Ok(a), Ok(b)) if a == b => {},
                 (Err(_), Err(_)) => {},
@@ -1252,4 +1280,86 @@ pub fn replay_ladder(case: &Value) -> Option<Vec<Violation>> {
     // only the violations of the recorded action
     let want = &case["action"];
     Some(acc.violations.into_iter().filter(|v| &v.case["action"] == want && v.case["insert_order"] == case["insert_order"]).collect())
+}
+
+/// Bulk construction at "magic" sizes: `try_from_iter` with n pairs for n around the sizes where an
+/// implementation might switch strategy, in riffled order, with and without a repeated key (same /
+/// other letter case, same / other value, at the start / end), through exact and inexact iterators.
+pub fn bulk_sizes(tier: Tier, acc: &mut Acc) -> Value {
+    let sizes: Vec<usize> = match tier {
+        Tier::Quick => vec![15, 16, 17, 31, 32, 33, 63, 64, 65, 127, 128, 129, 255, 256, 257, 511, 512, 513, 1023, 1024, 1025, 1026, 2049],
+        Tier::Thorough => vec![15, 16, 17, 31, 32, 33, 63, 64, 65, 127, 128, 129, 255, 256, 257, 511, 512, 513, 1000, 1023, 1024, 1025, 1026, 2047, 2048, 2049, 4095, 4096, 4097, 10000, 65535, 65536, 65537],
+    };
+    let a = par_items(sizes.len(), threads(), |si, acc| {
+        let n = sizes[si];
+        let stride = if n % 7 == 0 { 5 } else { 7 };
+        let order: Vec<usize> = (0..n).map(|i| (i * stride) % n).collect();
+        let mut seen = vec![false; n];
+        let order: Vec<usize> = order.into_iter().filter(|i| !std::mem::replace(&mut seen[*i], true)).chain((0..n).filter(|_| false)).collect();
+        let base: Vec<(String, String)> = order.iter().map(|i| (format!("k{i:05}"), format!("v{i}"))).collect();
+        let want: Vec<(String, String)> = {
+            let mut w = base.clone();
+            w.sort();
+            w
+        };
+        // variants: (extra pair, position) -> expectation
+        let first = base[0].0.clone();
+        let last = base[base.len() - 1].0.clone();
+        let variants: Vec<(Option<((String, String), bool)>, bool)> = vec![
+            (None, true),
+            (Some(((first.clone(), "other".into()), false)), false),
+            (Some(((first.to_ascii_uppercase(), "other".into()), false)), false),
+            (Some(((first.clone(), base[0].1.clone()), false)), false),
+            (Some(((last.to_ascii_uppercase(), "other".into()), true)), false),
+            (Some((("k99999x".into(), "fresh".into()), false)), true),
+        ];
+        for (vi, (extra, ok)) in variants.iter().enumerate() {
+            let mut items = base.clone();
+            if let Some((pair, at_start)) = extra {
+                if *at_start {
+                    items.insert(0, pair.clone());
+                } else {
+                    items.push(pair.clone());
+                }
+            }
+            for route in 0..3u8 {
+                acc.evals += 1;
+                acc.calls += 1;
+                let case = json!({"engine": "quals-bulk", "n": n, "variant": vi, "route": route});
+                let it = items.iter().map(|(k, v)| (k.as_str(), v.as_str()));
+                let r = guarded(|| match route {
+                    0 => Qualifiers::try_from_iter(it),
+                    1 => Qualifiers::try_from_iter(it.filter(|_| true)),
+                    _ => Qualifiers::try_from_iter(Hinted { inner: it, hint: (0, Some(usize::MAX)) }),
+                });
+                match r {
+                    Err(m) => acc.violate(Violation { prop: "C06", kind: "panic".into(), case, detail: m }),
+                    Ok(Err(_)) if !*ok => acc.sig(&("bulk-refused", vi)),
+                    Ok(Ok(q)) if *ok => {
+                        let mut w = want.clone();
+                        if let Some((pair, _)) = extra {
+                            w.push(pair.clone());
+                            w.sort();
+                        }
+                        if content(&q) != w || q.len() != w.len() || q.get(first.to_ascii_uppercase().as_str()) != Some(base[0].1.as_str()) {
+                            acc.violate(Violation { prop: "C11", kind: "bulk-content".into(), case, detail: format!("try_from_iter of {} distinct pairs: length {}, first keys {:?}", items.len(), q.len(), content(&q).iter().take(3).collect::<Vec<_>>()) });
+                        }
+                        acc.sig(&("bulk-ok", vi));
+                    },
+                    Ok(Ok(q)) => acc.violate(Violation { prop: "C11", kind: "try_from_iter-accepts".into(), case, detail: format!("{} pairs with a repeated key (variant {vi}) accepted: length {}", items.len(), q.len()) }),
+                    Ok(Err(e)) => acc.violate(Violation { prop: "C11", kind: "try_from_iter-refuses".into(), case, detail: format!("{} distinct valid pairs refused: {e}", items.len()) }),
+                }
+                acc.nontrivial += 1;
+            }
+        }
+    });
+    let n = a.evals;
+    acc.merge(a);
+    json!({"engine": "C-size-ladder", "model": "quals-bulk", "sizes": sizes, "constructions": n})
+}
+
+pub fn replay_bulk(case: &Value) -> Option<Vec<Violation>> {
+    let mut acc = Acc::new();
+    bulk_sizes(Tier::Thorough, &mut acc);
+    Some(acc.violations.into_iter().filter(|v| v.case == *case).collect())
 }
